@@ -77,6 +77,7 @@ func TestC15Seq(t *testing.T) { core.Run(t, "C15", GenA4Seq, ExecA4Seq) }
 
 func TestC16Serve(t *testing.T) { core.Run(t, "C16", GenS, ExecS) }
 func TestC01Burst(t *testing.T) { core.Run(t, "C01", GenHBurst, ExecH) }
+func TestC01Serve(t *testing.T) { core.Run(t, "C01", GenS01, ExecS) }
 func TestC11Serve(t *testing.T) { core.Run(t, "C11", GenS11, ExecS) }
 func TestC12Serve(t *testing.T) { core.Run(t, "C12", GenS12, ExecS) }
 
